@@ -33,7 +33,14 @@ LEVEL_NOTE = ("floating-point rounding is not modelled (tolerance run, rel 1e-9)
               "of per-cell oscillations, the step from oscillation sum to total variation of the PREM profile along "
               "a chord is a hypothesis (checked numerically by the search), discharged for monotone integrands "
               "(C15_trapz_monotone_error) and for chords inside the outermost PREM shell (C15_prem_variation_top_shell); C15_column_grows_with_dip_antitone proves the dip monotonicity of the exact column for any profile that is "
-              "antitone in r (PREM is not: its 6151-6346.6 km shell increases outwards); C15_grows_with_dip_partial proves only "
+              "antitone in r (PREM is not: its 6151-6346.6 km shell increases outwards); hypothesis audit: the property's "
+              "quantifier is endpoints at depth 0..3 km and directions ON THE SPHERE: endpoints above the surface / outside "
+              "the Earth are answered correctly by the real code (theorems carry no depth hypothesis), a zero direction "
+              "returns 100*rho(r_e)*sqrt(R^2-|e|^2) without raising (outside the quantifier, model agrees), a chord not "
+              "longer than one step returns 0 (C15_short_chord_zero; the extreme case of 'within the discretisation "
+              "error'), a step that is 0 / negative / NaN raises OverflowError / ValueError (oracle bad-step: never a "
+              "number), step=inf returns 0; hV of C15_trapz_bv_error is a hypothesis whose region the search samples with a "
+              "numerically computed variation; C15_grows_with_dip_partial proves only "
               "that the chord length (= uniform-density column) grows strictly with dip, the layered case is left to "
               "the monotonicity sweep of the search")
 ASSUMPTIONS = ["np.piecewise / np.linspace / np.trapz(np.trapezoid) / np.linalg.norm modelled by their specification"]
@@ -562,6 +569,16 @@ def check_state_reuse(run, history):
             return
 
 
+def check_bad_step(run, name, earth, ep, d, step):
+    """a step that is zero, negative or NaN cannot define a grid: the call must be rejected with an exception (the
+    code raises OverflowError / ValueError) and must never answer with a number"""
+    T, err = slant(earth, ep, d, step)
+    I, V, dist = ref_column(name, ep, d)
+    if dist > 0 and err is None:
+        run.fail_input("bad-step", {"model": name, "endpoint": list(ep), "direction": list(d), "step": repr(step)}, observed=T,
+                       what="slant_depth answered with a number for a step that is zero / negative / NaN")
+
+
 def rotz(v, a):
     c, s = math.cos(a), math.sin(a)
     return [c * v[0] - s * v[1], s * v[0] + c * v[1], v[2]]
@@ -659,6 +676,15 @@ def search(run, deep):
             dips = sorted(rng.uniform(0.5, 90) for _ in range(10))
             run.case(("oracle-dip", name, tuple(ep)))
             check_dip_sweep(run, name, earth, ep, rng.uniform(0, 2 * math.pi), rng.choice([200.0, 500.0, 1000.0]), dips)
+        # steps that define no grid must be rejected; full-resolution chords (no cap on the node count) in the deep run
+        for bad in (0.0, -500.0, float("nan")):
+            ep = [rng.uniform(-2e4, 2e4), rng.uniform(-2e4, 2e4), -rng.uniform(1, 3000)]
+            run.case(("oracle-bad-step", name, repr(bad)))
+            check_bad_step(run, name, earth, ep, [0.3, 0.1, -1.0], bad)
+        if run.thorough():
+            ep = [rng.uniform(-2e4, 2e4), rng.uniform(-2e4, 2e4), -rng.uniform(1, 3000)]
+            run.case(("oracle-column-fullres", name, tuple(ep)))
+            check_column(run, name, earth, ep, [0.05, 0.02, -1.0], 5.0)
         # convergence as the step shrinks
         for i in range(2 * mult):
             ep = [rng.uniform(-2e4, 2e4), rng.uniform(-2e4, 2e4), -rng.uniform(1, 3000)]
@@ -678,6 +704,8 @@ def replay(run, data):
     k = data.get("kind")
     if k == "density":
         check_density(run, name, earth, [i["r"]])
+    elif k == "bad-step":
+        check_bad_step(run, name, earth, i["endpoint"], i["direction"], float(i["step"]))
     elif k == "arguments":
         check_arguments_untouched(run, name, earth, i["endpoint"], i["direction"], i["step"], i["radii"])
     elif k == "state-reuse":
